@@ -1304,6 +1304,21 @@ def run_pspec(ctx):
             tuple(ps['s'].value) == tuple(names) and ps['s'].type is nnx.BatchStat and ps['raw'] == P() and ps['scalar'].value == P())
       ctx.check(ok, 'nnx.pspec', lambda: dict(names=names, got=repr(ps)[:600]))
 
+      # a Variable bridged from a default LogicallyPartitioned box (its sharding_rules metadata is None): the spec is still
+      # computable, with and without a logical_axis_rules context (one rule per distinct name: no priorities involved)
+      if names and all(n is not None for n in names) and len(set(names)) == len(names):
+        md = lspmd.LogicallyPartitioned(arr, names).to_nnx_metadata()
+        bridged = nnx.State({'w': nnx.Param(md.pop('value'), **md).to_state()})
+        ctx.op('nnx.get_partition_spec(bridged LogicallyPartitioned)')
+        ctx.check(tuple(nnx.get_partition_spec(bridged)['w'].value) == tuple(names), 'nnx.pspec:bridged_logically_partitioned', lambda: dict(names=names))
+        rules = tuple((n, 'M' + n) for n in names)
+        with nn.logical_axis_rules(rules):
+          try:
+            got_b = tuple(nnx.get_partition_spec(bridged)['w'].value)
+          except Exception as e:  # noqa: BLE001
+            got_b = repr(e)[:200]
+        ctx.check(got_b == tuple('M' + n for n in names), 'nnx.pspec:bridged_logically_partitioned', lambda: dict(names=names, under_rules=got_b))
+
       class Holder(nnx.Module):
         def __init__(self):
           self.w = nnx.Param(arr, sharding=tuple(names))
